@@ -827,3 +827,52 @@ func VF_C17_keys_expired() {
 	}
 	vfAssert(found == wantLive, "keys-expired-live-key-listing")
 }
+
+// a string key set again without a deadline keeps its value however much time passes (the timer goroutine
+// of the earlier SET ... EX is stale): the C06 lemma, registered here for SET / DEL / SET
+func VF_C01_stale_timer() { VF_C06_stale_timer() }
+
+// c01Wire: an argument as the parser hands it out - a slice of the read buffer with the line terminator
+// (and whatever follows) behind it in the same backing array
+func c01Wire(b []byte) []byte {
+	buf := make([]byte, len(b)+2, len(b)+2)
+	copy(buf, b)
+	buf[len(b)], buf[len(b)+1] = '\r', '\n'
+	return buf[:len(b)]
+}
+
+// VF_C01_setrange_wire_args: SETRANGE / APPEND on a value that is still the slice the parser produced:
+// the bytes behind the argument in its backing array never become part of the value (padding is zero
+// bytes), and the stored value does not change when the caller's buffer is reused afterwards.
+func VF_C01_setrange_wire_args() {
+	m := hNewDb(2)
+	val := vfBytes("val", 1, 3)
+	how := vfChoice("stored-by", 3)
+	v := c01Wire(val)
+	switch how {
+	case 0:
+		hExec(m, bs("set"), bs("k"), v)
+	case 1:
+		hExec(m, bs("mset"), bs("k"), v)
+	default:
+		hExec(m, bs("append"), bs("k"), v)
+	}
+	off := vfChoice("offset", 6)
+	p := c01Wire(vfBytes("payload", 1, 1))
+	got := hExec(m, bs("setrange"), bs("k"), vfNumStr(int64(off)), p)
+	want := append([]byte(nil), val...)
+	for len(want) < off+1 {
+		want = append(want, 0)
+	}
+	want[off] = p[0]
+	vfAssert(rvEq(got, vInt(int64(len(want)))), "setrange-wire-reply")
+	// the connection's read buffer is reused for the next request
+	for i := range v[:cap(v)] {
+		v[:cap(v)][i] = '#'
+	}
+	for i := range p[:cap(p)] {
+		p[:cap(p)][i] = '#'
+	}
+	r := hExec(m, bs("get"), bs("k"))
+	vfAssert(r.k == rBulk && vfBytesEq(r.b, want), "setrange-wire-value")
+}
